@@ -10,6 +10,7 @@ import (
 	"time"
 
 	"github.com/kercylan98/vivid"
+	"github.com/kercylan98/vivid/internal/actor"
 	vsimrt "vsimrt/simrt"
 )
 
@@ -376,6 +377,7 @@ func c06Subtree(r *R) {
 // racing ActorSystem.Stop, with older children that take a moment to stop so that the root stays in the killing state)
 func init() {
 	register(&Workload{Prop: "C06", Variant: "root-spawn-race", Horizon: 20 * time.Minute, MaxSteps: 200000, MaxG: 4096, Spin: 8000, PCTLen: 1200, Weight: 1, Body: c06RootSpawnRace})
+	register(&Workload{Prop: "C06", Variant: "name-reuse", Horizon: 10 * time.Minute, MaxSteps: 150000, MaxG: 4096, Spin: 5000, PCTLen: 1200, Body: c06NameReuse})
 }
 
 func c06RootSpawnRace(r *R) {
@@ -460,4 +462,102 @@ func c06RootSpawnRace(r *R) {
 		}
 	}
 	r.CountN("spawns-racing-root-kill", len(spawned))
+}
+
+// c06NameReuse: "once terminated its path is released ... the name can be reused by the parent". A child is killed from
+// outside while its parent keeps trying to create a child of the same name (respawn on demand): the first attempt that
+// finds the path released succeeds - possibly before the parent has handled the old child's OnKilled. The new namesake
+// must be a full member of the tree: listed by its parent, reachable, and terminated with the parent.
+func c06NameReuse(r *R) {
+	w := newWorld(r, WorldOpt{})
+	if r.Failed() {
+		return
+	}
+	sysI := actor.VsimSystem(w.Sys)
+	if _, err := w.Spawn(&Spec{Name: "p", Children: []*Spec{{Name: "x"}, {Name: "y"}}}); err != nil {
+		r.Fail("C06/harness", "spawn: %v", err)
+		return
+	}
+	vsimrt.Settle()
+	attempts := 3 + r.Choose(10)
+	poison := r.Chance(30)
+	r.Sample(map[string]any{"respawn_attempts": attempts, "poison": poison})
+	var mu sync.Mutex
+	respawned := 0
+	var wg sync.WaitGroup
+	wg.Add(2)
+	vsimrt.Go("c06.killer", func() {
+		defer wg.Done()
+		for i, n := 0, r.Choose(6); i < n; i++ {
+			vsimrt.Yield()
+		}
+		w.Sys.Kill(w.RefBy("create", nil, "/p/x"), poison, "scripted")
+	})
+	vsimrt.Go("c06.respawner", func() {
+		defer wg.Done()
+		pref := w.RefBy("create", nil, "/p")
+		for i := 0; i < attempts; i++ {
+			w.Tell(pref, w.NewCmd("respawn", i, func(ctx vivid.ActorContext, p *Probe) {
+				mu.Lock()
+				done := respawned > 0
+				mu.Unlock()
+				if done {
+					return
+				}
+				if _, err := w.SpawnIn(ctx, &Spec{Name: "x"}); err == nil {
+					mu.Lock()
+					respawned++
+					mu.Unlock()
+					r.Count("namesake-created")
+				}
+			}))
+			vsimrt.Yield()
+		}
+	})
+	r.Waiting("killer and respawner")
+	wg.Wait()
+	vsimrt.Yield()
+	vsimrt.SettleFor(500 * time.Millisecond)
+	if r.Failed() {
+		return
+	}
+	if !treeConsistent(r, sysI, "C06") {
+		w.DumpNotes(200)
+		return
+	}
+	mu.Lock()
+	n := respawned
+	mu.Unlock()
+	if n > 0 {
+		// the namesake is alive and reachable
+		pc := w.NewCmd("probe", 0, nil)
+		w.Tell(w.RefBy("create", nil, "/p/x"), pc)
+		vsimrt.SettleFor(100 * time.Millisecond)
+		ok := false
+		for _, e := range w.Events() {
+			if e.Kind == "Cmd" && e.ID == pc.ID {
+				ok = true
+			}
+		}
+		if !ok {
+			r.Fail("C06/namesake-not-reachable", "the parent re-created /p/x after the old one had terminated, but a message to the new actor was not processed")
+			w.DumpNotes(200)
+			return
+		}
+	}
+	// terminating the parent terminates the namesake
+	w.Sys.Kill(w.RefBy("create", nil, "/p"), false, "scripted")
+	vsimrt.SettleFor(500 * time.Millisecond)
+	vsimrt.Fence()
+	for _, c := range actor.VsimContexts(sysI) {
+		if strings.HasPrefix(c.Path, "/p") {
+			r.Fail("C06/namesake-survived-parent", "after /p was killed, %s is still registered (state %d, children %v): the re-created child was not part of its parent's children table (namesake created: %v)", c.Path, c.State, c.Children, n > 0)
+			w.DumpNotes(200)
+			return
+		}
+	}
+	if err := w.Stop(30 * time.Second); err != nil {
+		r.Fail("C06/stop-failed after-name-reuse", "Stop returned %v", err)
+		return
+	}
 }
